@@ -344,10 +344,19 @@ def caller_role(g):
 
 # ---------------------------------------------------------------------------- W4
 
-def body_type_of_site(t, c):
-    """Body type T of a generic sender call (first generic arg) or None."""
+def body_type_of_site(t, c, f=None, sym=None):
+    """Body type T of a generic sender call (first generic arg) or None.  Inside an expanded generic helper the call is still
+    generic (`T`): the type is then the one of the caller's value that was passed down as the `&T` argument."""
     g = c.get("gargs") or []
-    return g[-1].split("::")[-1] if g else None
+    ty = g[-1].split("::")[-1] if g else None
+    if ty is not None and len(ty) <= 2 and ty[:1].isupper() and f is not None and sym is not None:
+        from vlint.util import concrete_arg_type
+        for idx, aty in enumerate(t.get("atys") or []):
+            if aty.strip() in ("&" + ty, "&mut " + ty, ty):
+                got = concrete_arg_type(f, sym, t, idx)
+                if got and got.strip() not in ("&" + ty, "&mut " + ty, ty):
+                    return got.replace("&mut ", "").lstrip("&").split("::")[-1]
+    return ty
 
 
 def w4(fb, chk, tag=""):
@@ -382,7 +391,7 @@ def w4(fb, chk, tag=""):
                 chk.bad("W4", skey, "%s sends request code %s; the specification's code for this "
                         "operation is %s" % (f.short, var, code), f.loc(t["line"]))
                 continue
-            body = body_type_of_site(t, c)
+            body = body_type_of_site(t, c, f, m.sym)
             want_body = wire.RUST_NAME[row["body"]] if row["body"] else None
             if legacy:
                 want_body = "VhostUserU64"
@@ -470,7 +479,7 @@ def w4(fb, chk, tag=""):
         for bb, t, c, ai in common.request_sender_sites(f, common.BACKEND_REQ_TY):
             args = m.sym.arg_terms(bb)
             _, var = enum_variant_of(args[ai])
-            body = body_type_of_site(t, c)
+            body = body_type_of_site(t, c, f, m.sym)
             fds_shape = option_shape(args[-1])[0]
             probs = []
             if var != code:
@@ -514,7 +523,7 @@ def w4(fb, chk, tag=""):
         for bb, t, c, ai in ss:
             args = m.sym.arg_terms(bb)
             _, var = enum_variant_of(args[ai])
-            body = body_type_of_site(t, c)
+            body = body_type_of_site(t, c, f, m.sym)
             want_body = wire.RUST_NAME[row["body"]] if row["body"] else None
             has_payload = "payload" in (c.get("name") or "")
             probs = []
